@@ -51,7 +51,7 @@ fault_act = st.one_of(st.just(["ok"]), st.just(["drop"]), st.just(["drop"]), st.
 
 
 @st.composite
-def _case(draw):
+def _case(draw, max_steps=8):
     fam = draw(st.sampled_from(["finite", "finite", "infinite"]))
     if fam == "finite":
         attl, sttl = draw(st.integers(2, 10)), draw(st.integers(2, 10))
@@ -63,14 +63,42 @@ def _case(draw):
               rmax=draw(st.sampled_from([0.003, 0.02])), coll=draw(st.sampled_from([0, 0.005])))
     ops = ["stopO", "startO", "stopW", "startW", "crashO", "crashW", "restartO", "restartW"] + (["fault-on", "fault-on", "fault-on", "fault-off"] if fam == "finite" else [])
     steps = []
-    for _ in range(draw(st.integers(0, 8))):
+    for _ in range(draw(st.integers(0, max_steps))):
         steps.append({"op": draw(st.sampled_from(ops)), "when": draw(when_st)})
     return {"fam": fam, "tm": tm, "fr": draw(st.lists(st.sampled_from([0.0, 0.5, 1.0]), min_size=1, max_size=3)), "steps": steps,
             "faults": draw(st.lists(fault_act, min_size=1, max_size=8)), "v6": draw(st.sampled_from([False, False, True]))}
 
 
 def strategy(tier):
-    return _case()
+    return _case(16 if tier == "thorough" else 8)
+
+
+ALPHA = ["stopO", "startO", "stopW", "startW", "crashO", "restartO", "crashW", "restartW", "T-q", "T+q", "+0.3", "+B"]
+ENUM_LEN = {"quick": 3, "thorough": 4}
+ENUM_TM = {"finite": dict(attl=3, sttl=3, cyc=1.0, refresh=1.0, reps=1, base=0.05, imax=0.1, rmax=0.02, coll=0.005),
+           "infinite": dict(attl=INF, sttl=INF, cyc=1.0, refresh=None, reps=1, base=0.05, imax=0.1, rmax=0.02, coll=0.005)}
+EXHAUSTIVE = {"quick": "all 12^3 = 1728 disturbance scripts of length 3 over {graceful stop/start, crash/restart of either side} x timing prefixes {next pending timer -RES/4, +RES/4, +0.3 s, one convergence bound}, finite and infinite family",
+              "thorough": "all 12^4 = 20736 disturbance scripts of length 4 over the same alphabet, finite and infinite family"}
+
+
+def enum_size(tier):
+    return 2 * len(ALPHA) ** ENUM_LEN[tier]
+
+
+def enum_case(tier, idx):
+    idx, fi = divmod(idx, 2)
+    fam = ("finite", "infinite")[fi]
+    steps = [{"op": "wait", "when": ["d", 1.3]}]
+    when = ["d", 0.05]
+    for _ in range(ENUM_LEN[tier]):
+        idx, r = divmod(idx, len(ALPHA))
+        a = ALPHA[r]
+        if a in ("T-q", "T+q", "+0.3", "+B"):
+            when = {"T-q": ["t", 0, "-q"], "T+q": ["t", 0, "+q"], "+0.3": ["d", 0.3], "+B": ["d", 3.6]}[a]
+            continue
+        steps.append({"op": a, "when": when})
+        when = ["d", 0.05]
+    return {"fam": fam, "tm": ENUM_TM[fam], "fr": [0.5], "steps": steps, "faults": [["ok"]], "v6": False}
 
 
 def fixed_cases(tier):
